@@ -28,7 +28,7 @@ ENGINE_TEXT = {
  "C18": "Ack timeout fires at the first service at/after the deadline and never earlier; interrupted-retry limit exact (MonC18).",
 }
 for k, v in ENGINE_TEXT.items():
-    CLAIMED[k] = ("TLA+ monitor Mon%s folded by TLC over recorded engine executions (trace validation)" % k, v,
+    CLAIMED[k] = ("Engine.tla bounded instances model-checked by TLC with monitor Mon%s composed (state invariants, defect switches refuted, decision histories exported as scripts for the real engine); Mon%s folded by TLC over the recorded executions of the real engine (TLC scripts, seeded random, regressions); recorded calls replayed against Engine.tla by EngineTrace.tla (conformance, invariants on observed states)" % (k, k), v,
                   "harness reference codec/broker; monitor rules; bounded random and regression scenario sets", "7/" + k)
 
 CLAIMED["C02"] = ("Codec.tla case analysis enumerated by TLC (client-to-server layouts) replayed through the public builders and the crate's resumable encoder under many capacity sequences; TLA+ monitor MonC02 folded by TLC over the codec cases and over recorded engine executions",
@@ -37,9 +37,9 @@ CLAIMED["C02"] = ("Codec.tla case analysis enumerated by TLC (client-to-server l
 CLAIMED["C03"] = ("Codec.tla case analysis (server-to-client layouts, property and reason-code tables) enumerated by TLC and DecoderFraming.tla model-checked over all chunkings; bytes built by TLC fed to the crate's decoder under many chunkings; TLA+ monitor MonC03 folded by TLC over the outcomes",
                   "Every server packet kind, every reason code the specification admits, every property alone / all / repeated / reversed order, boundary lengths - built by TLC from Codec.tla - is decoded by the crate to exactly that content under whole / byte-by-byte / every two-way split / random chunkings; DecoderFraming.tla (the decoder's three-state framing) is checked by TLC for chunking invariance and refusal of over-size packets at header time over every stream of its alphabet and every partition, and its behaviours are replayed on the code; malformed classes and seeded byte mutations must give one verdict for all chunkings and no panic (MonC03).",
                   "Codec.tla as the reading of the OASIS specifications; mutation classes sampled, not enumerated", "7/C03")
-CLAIMED["C12"] = ("ClientLifecycle.tla model-checked by TLC (safety and liveness under fairness, recorded defects rediscovered when switched on); TLC-exported schedules and regression scripts run on the real tokio client over a scripted transport; TLA+ monitor MonC12 folded by TLC over the recorded event streams",
-                  "TLC checks the client state machine + event loop + transport specification for a well-formed event stream, loop survival and stop/start/close liveness over all interleavings of user requests with transport behaviour; schedules exported from the model and regression scripts are executed on the real tokio client (current-thread runtime, paused clock) and its recorded event stream is judged by the same monitor MonC12.",
-                  "tokio client only (the threaded client shares MqttClientImpl and the loop structure); bounded requests/attempts", "7/C12")
+CLAIMED["C12"] = ("ClientLifecycle.tla model-checked by TLC (safety and liveness under fairness, recorded defects rediscovered when switched on); TLC-exported schedules and regression scripts run on the real tokio client over a scripted transport and on the real threaded client; TLA+ monitor MonC12 folded by TLC over the recorded event streams",
+                  "TLC checks the client state machine + event loop + transport specification (with operations whose result nobody waits for) for a well-formed event stream, loop survival and stop/start/close liveness over all interleavings of user requests with transport behaviour; schedules exported from the model and regression scripts are executed on the real tokio client (current-thread runtime, paused clock) and, fewer of them, on the real threaded client in real time; the recorded event streams are judged by the same monitor MonC12.",
+                  "bounded requests/attempts; threaded client: real time, fewer schedules", "7/C12")
 CLAIMED["C19"] = ("Backoff.tla model-checked by TLC with monitor MonC19 composed (every configuration of the alphabet x every history; recorded defects rediscovered when switched on); TLC-exported behaviours, random histories and regression scripts run on the real tokio client on a paused clock; MonC19 folded by TLC over the recorded event streams",
                   "TLC checks normalize / initial period / doubling / clamp / jitter / reset rule against the property for all configurations (zero, sub-millisecond, base>max, near Duration::MAX) and all histories of attempt outcomes and lifetimes up to the bound; the real tokio client is driven through exported and random histories with virtual time, every inter-attempt wait is judged by MonC19 and compared with the wait the specification predicts.",
                   "tokio client only (threaded client shares advance_reconnect_period and the reset rule); 1 ms timer granularity; lifetimes in real time with a 10 ms tolerance", "7/C19")
